@@ -320,4 +320,145 @@ theorem cex_without_recheck :
 example : (erun ⟨[], [(pA, .get 0), (pA, .get 0), (pA, .get 0)]⟩ [0, 1, 2, 0, 1, 2, 2, 1, 0, 0, 1, 2]).pcs =
     [(pA, .done (.ok pA)), (pA, .done (.ok pA)), (pA, .done (.ok pA))] := by decide
 
+
+/-! ## persistence: the registry survives a clean restart (and an acknowledged definition survives a crash) -/
+
+/-- which operations persist the registry, as the extractor reads it from the source now -/
+def cfgNow : PCfg :=
+  ⟨Generated.C19.createPipeSaves, Generated.C19.deletePipeSaves, Generated.C19.shutdownSaves⟩
+
+/-- what is on disk is the registry, and every registered pipe is one `newPPipe` accepts -/
+def PInv (acc : Pipe → Bool) (s : PState) : Prop :=
+  (s.disk = some s.mem ∨ (s.disk = none ∧ s.mem = [])) ∧ ∀ p ∈ s.mem, acc p = true
+
+theorem pload_of_inv (acc : Pipe → Bool) (s : PState) (h : PInv acc s) : pload acc s.disk = some s.mem := by
+  obtain ⟨hd, ha⟩ := h
+  have hall : s.mem.all acc = true := by simpa [List.all_eq_true] using ha
+  rcases hd with hd | ⟨hd, hm⟩
+  · simp [pload, hd, hall]
+  · simp [pload, hd, hm]
+
+/-- an operation that does not change the registry leaves it as it is -/
+theorem step_unchanged (r : Reg) (o : Op) (h : changes r o = false) : (step r o).1 = r := by
+  cases o with
+  | get n => simp only [step]; cases Reg.find r n <;> rfl
+  | delete n =>
+    simp only [changes] at h; simp only [step]
+    cases hf : Reg.find r n with
+    | none => rfl
+    | some q => simp [hf] at h
+  | create p ok =>
+    simp only [changes] at h; simp only [step, create]
+    cases hf : Reg.find r p.name with
+    | some q => rfl
+    | none => simp [hf] at h; simp [h]
+  | ensure p ok =>
+    simp only [changes] at h; simp only [step, ensure]
+    cases hf : Reg.find r p.name with
+    | some q => by_cases hq : (q.fltCond != p.fltCond || q.tagsCond != p.tagsCond) = true <;> simp [hq]
+    | none => simp [hf] at h; simp [h]
+
+/-- whatever an operation (with acceptance decided by `acc`) leaves in the registry is accepted by `acc` -/
+theorem step_acc (acc : Pipe → Bool) (r : Reg) (o : Op) (h : ∀ p ∈ r, acc p = true) :
+    ∀ p ∈ (step r (withAcc acc o)).1, acc p = true := by
+  cases o with
+  | get n => simp only [withAcc, step]; cases Reg.find r n <;> exact h
+  | delete n =>
+    simp only [withAcc, step]
+    cases Reg.find r n with
+    | none => exact h
+    | some q => intro p hp; exact h p (by unfold Reg.erase at hp; exact (List.mem_filter.mp hp).1)
+  | create p ok =>
+    simp only [withAcc, step, create]
+    cases Reg.find r p.name with
+    | some q => exact h
+    | none =>
+      by_cases ha : acc p = true
+      · simp only [ha, if_true]; intro x hx
+        rcases List.mem_cons.mp hx with rfl | hx
+        · exact ha
+        · exact h x hx
+      · simp only [ha]; exact h
+  | ensure p ok =>
+    simp only [withAcc, step, ensure]
+    cases Reg.find r p.name with
+    | some q => by_cases hq : (q.fltCond != p.fltCond || q.tagsCond != p.tagsCond) = true <;> simp only [hq] <;> exact h
+    | none =>
+      by_cases ha : acc p = true
+      · simp only [ha, if_true]; intro x hx
+        rcases List.mem_cons.mp hx with rfl | hx
+        · exact ha
+        · exact h x hx
+      · simp only [ha]; exact h
+
+/-- one step of a server whose create and delete persist keeps the invariant, whatever `Shutdown` does -/
+theorem pstep_inv (cfg : PCfg) (acc : Pipe → Bool) (hc : cfg.createSaves = true) (hd : cfg.deleteSaves = true)
+    (s : PState) (o : POp) (h : PInv acc s) : PInv acc (pstep cfg acc s o).1 := by
+  have hl := pload_of_inv acc s h
+  obtain ⟨hdisk, hacc⟩ := h
+  cases o with
+  | restart =>
+    unfold pstep
+    by_cases hs : cfg.shutdownSaves = true
+    · have : pload acc (some s.mem) = some s.mem := by
+        have hall : s.mem.all acc = true := by simpa [List.all_eq_true] using hacc
+        simp [pload, hall]
+      simp only [hs, if_true, this]; exact ⟨Or.inl rfl, hacc⟩
+    · have hs' : cfg.shutdownSaves = false := by simpa using hs
+      simp only [hs', Bool.false_eq_true, if_false, hl]; exact ⟨hdisk, hacc⟩
+  | crash => unfold pstep; simp only [hl]; exact ⟨hdisk, hacc⟩
+  | op o =>
+    have hsave : savesAfter cfg s.mem (withAcc acc o) = changes s.mem (withAcc acc o) := by
+      unfold savesAfter; cases o <;> simp [withAcc, hc, hd, changes]
+    refine ⟨?_, ?_⟩
+    · show (if savesAfter cfg s.mem (withAcc acc o) = true then some (step s.mem (withAcc acc o)).1 else s.disk)
+          = some (step s.mem (withAcc acc o)).1 ∨
+        ((if savesAfter cfg s.mem (withAcc acc o) = true then some (step s.mem (withAcc acc o)).1 else s.disk) = none ∧
+          (step s.mem (withAcc acc o)).1 = [])
+      rw [hsave]
+      by_cases hch : changes s.mem (withAcc acc o) = true
+      · left; simp [hch]
+      · have hch' : changes s.mem (withAcc acc o) = false := by simpa using hch
+        have hun := step_unchanged s.mem (withAcc acc o) hch'
+        show (if changes s.mem (withAcc acc o) = true then some (step s.mem (withAcc acc o)).1 else s.disk)
+            = some (step s.mem (withAcc acc o)).1 ∨
+          ((if changes s.mem (withAcc acc o) = true then some (step s.mem (withAcc acc o)).1 else s.disk) = none ∧
+            (step s.mem (withAcc acc o)).1 = [])
+        rw [hch', hun]; simpa using hdisk
+    · exact step_acc acc s.mem o hacc
+
+/-- **The registry survives a clean restart** — and a crash — at any point of any history: from an empty
+directory, after every sequence of create / ensure / delete / get operations, clean restarts and crashes,
+a further clean restart (or crash) starts (is not refused) and leaves exactly the registry that was there.
+The three facts (CreatePipe, DeletePipe and Shutdown call `savePipes`) are read from the source on every run. -/
+theorem registry_survives_restart (acc : Pipe → Bool) (ops : List POp) :
+    let s := prun cfgNow acc ⟨[], none⟩ ops
+    pstep cfgNow acc s .restart = (⟨s.mem, some s.mem⟩, none) ∧
+    (pstep cfgNow acc s .crash).1.mem = s.mem ∧ (pstep cfgNow acc s .crash).2 = none := by
+  have hc : cfgNow.createSaves = true := by decide
+  have hd : cfgNow.deleteSaves = true := by decide
+  have hs : cfgNow.shutdownSaves = true := by decide
+  have hinv : ∀ (ops : List POp) (s : PState), PInv acc s → PInv acc (prun cfgNow acc s ops) := by
+    intro ops
+    induction ops with
+    | nil => intro s h; exact h
+    | cons o os ih => intro s h; exact ih _ (pstep_inv cfgNow acc hc hd s o h)
+  have h := hinv ops ⟨[], none⟩ ⟨Or.inr ⟨rfl, rfl⟩, by simp⟩
+  intro s
+  have hl := pload_of_inv acc s h
+  have hall : s.mem.all acc = true := by simpa [List.all_eq_true] using h.2
+  refine ⟨?_, ?_, ?_⟩
+  · simp [pstep, hs, pload, hall]
+  · simp [pstep, hl]
+  · simp [pstep, hl]
+
+/-- why the save in `CreatePipe` matters (the repair of F07): without it a crash right after an acknowledged
+create loses the definition — the model's other branch -/
+theorem cex_create_without_save :
+    (prun ⟨false, true, true⟩ (fun _ => true) ⟨[], none⟩ [.op (.create pA true), .crash]).mem = [] := by
+  decide
+
+example : (prun cfgNow (fun _ => true) ⟨[], none⟩ [.op (.create pA true), .op (.create pB true), .op (.delete [97]), .restart]).mem = [pB] := by
+  decide
+
 end Logrange.Props.C19
